@@ -24,6 +24,8 @@ def cases(rng, tier, X):
         eth = rng.choice([None, None, rng.choice(F.STATIONS)])
         ops = [F.iface_line(0, mac=own, mtu=mtu), F.glob_line()]
         if rng.random() < 0.3:
+            ops.append('glob sendok=len')          # a successful transmit answers with the byte count
+        if rng.random() < 0.3:
             # another interface of the same responder (its own address) has executed an Emit before
             ops.insert(1, F.iface_line(1, mac=F.OWN2, mtu=rng.choice([576, 1500])))
             m2 = rng.choice(F.STATIONS)
